@@ -21,15 +21,17 @@ META = dict(
 DK = "jinns.parameters._derivative_keys:"
 
 
-def routing(kind, group):
+def routing(kind, group, obs_param=False):
     def build():
         S = Scen(kind, B=2)
         terms = TERMS[kind]
-        names = S.names(mask_shape=(len(terms), 3))
+        extra = [Inp("oa", (2, 1))] if obs_param else []
+        names = S.names(mask_shape=(len(terms), 3), extra=extra)
         gi = {"th": 0, "a": 1, "b": 2}[group]
         def total(th, a_, b_, args):
             a = dict(zip(names, args)); a.update(th=th, a=a_, b=b_)
-            loss, params, batch = S.loss_batch(a, derivative_keys=S.dkeys(a["mk"]))
+            loss, params, batch = S.loss_batch(a, derivative_keys=S.dkeys(a["mk"]),
+                                               obs_eq={"a": a["oa"]} if obs_param else None)
             return loss.evaluate(params, batch)[0]
         def fn(*args):
             a = dict(zip(names, args))
@@ -37,18 +39,18 @@ def routing(kind, group):
             return jnp.reshape(g, ())
         def spec(*args, wrong=False):
             s = dict(zip(names, args))
-            sp = S.term_specs(s)
+            sp = S.term_specs(s, a_obs=[s["oa"][i, 0] for i in range(2)] if obs_param else None)
             var = {"th": s["th"][0], "a": s["a"][()], "b": s["b"][()]}[group]
             tot = P.ZERO
             for i, t in enumerate(terms):
                 m = s["mk"][(i + 1) % len(terms), gi] if wrong else s["mk"][i, gi]
                 tot = tot + m * P.diff(sp[t], var)
             return arr(lambda _: tot, ())
-        return dict(fn=fn, spec=spec, canary=lambda *a: spec(*a, wrong=True), inputs=S.inputs(mask_shape=(len(terms), 3)),
+        return dict(fn=fn, spec=spec, canary=lambda *a: spec(*a, wrong=True), inputs=S.inputs(mask_shape=(len(terms), 3), extra=extra),
                     timeout_ms=20000)
     cls = {"ODE": "jinns.loss._LossODE:LossODE.evaluate", "statio": "jinns.loss._LossPDE:LossPDEStatio.evaluate",
            "nonstatio": "jinns.loss._LossPDE:LossPDENonStatio.evaluate"}[kind]
-    return EqObligation(f"C06/{cls.split(':')[1]}/ensures.gradient_routing[{kind},group={group}]", build,
+    return EqObligation(f"C06/{cls.split(':')[1]}/ensures.gradient_routing[{kind},group={group}{',observed_a' if obs_param else ''}]", build,
                         [cls, DK + "_set_derivatives"])
 
 
@@ -196,6 +198,18 @@ def mask_builders(seed):
                         n += 1
                         if as_pair(getattr(a, f)) != expect(kw[f]) or as_pair(getattr(b, f)) != expect(kw[f]):
                             bad.append(f"{cls.__name__}.from_str({kw}) field {f}: {as_pair(getattr(a, f))}")
+                # constructor with any subset of the fields given (as trees), the others left to their default:
+                # a field left out is "network parameters only", whatever the other fields are
+                for combo in itertools.product((None, "nn_params", "eq_params", "both"), repeat=len(flds)):
+                    if all(v is None for v in combo) or all(v is not None for v in combo):
+                        continue
+                    kw = {f: _get_masked_parameters(v, params) for f, v in zip(flds, combo) if v is not None}
+                    a = cls(params=params, **kw)
+                    for f, v in zip(flds, combo):
+                        n += 1
+                        if as_pair(getattr(a, f)) != expect(v or "nn_params"):
+                            bad.append(f"{cls.__name__}(params, {dict((k, c_) for k, c_ in zip(flds, combo) if c_)}) field {f}: "
+                                       f"{as_pair(getattr(a, f))}, expected {expect(v or 'nn_params')}")
                 # mixed: a ready-made tree is passed through unchanged
                 tree = _get_masked_parameters("both", params)
                 a = cls.from_str(params=params, **{flds[0]: tree})
@@ -213,6 +227,9 @@ def obligations(tier):
     for kind in ("ODE", "statio", "nonstatio"):
         for g in ("th", "a", "b"):
             obs.append(routing(kind, g))
+        # the observations carry observed values of 'a': the observation term is still masked by its own keys
+        for g in (("th", "a") if tier == "quick" else ("th", "a", "b")):
+            obs.append(routing(kind, g, obs_param=True))
         obs.append(value_independence(kind))
     for g in ("t1", "t2", "a"):
         obs.append(paramsdict_routing(g))
